@@ -74,6 +74,7 @@ package stanza
 // C15: JID parsing and formatting
 //
 //@ spec hasSpace(s Str) Bool
+//@ axiom [hasSpace.empty] !hasSpace("")
 //@ pred okLocal(s)  := !hasSpace(s) && !contains(s, "@") && !contains(s, "/") && !contains(s, "'") && !contains(s, "\"") && !contains(s, ":") && !contains(s, "<") && !contains(s, ">")
 //@ pred okDomain(s) := s != "" && !hasSpace(s) && !contains(s, "@") && !contains(s, "/")
 //@ pred jAt(s)    := indexof(s, "@")
@@ -122,7 +123,9 @@ package stanza
 //
 // Round trips, over the contracts above (strings: cvc5). A domain JID whose resource contains '@' has a '/'
 // before its first '@': that is the input class the property excludes, hence the antecedent on r.
-//@ lemma [C15.roundtrip.compose] forall l Str, d Str, r Str :: okLocal(l) && okDomain(d) && (l != "" || !contains(r, "@")) ==> jValid(jFull(l, d, r)) && jLocal(jFull(l, d, r)) == l && jDom(jFull(l, d, r)) == d && jRes(jFull(l, d, r)) == r
+//@ lemma [C15.roundtrip.user] forall l Str, d Str, r Str :: okLocal(l) && okDomain(d) && l != "" && r != "" ==> jFull(l, d, r) == l + "@" + d + "/" + r && jValid(l + "@" + d + "/" + r) && jLocal(l + "@" + d + "/" + r) == l && jDom(l + "@" + d + "/" + r) == d && jRes(l + "@" + d + "/" + r) == r
+//@ lemma [C15.roundtrip.domain] forall d Str, r Str :: okDomain(d) && r != "" && !contains(r, "@") ==> jFull("", d, r) == d + "/" + r && jValid(d + "/" + r) && jLocal(d + "/" + r) == "" && jDom(d + "/" + r) == d && jRes(d + "/" + r) == r
+//@ lemma [C15.roundtrip.nores] forall l Str, d Str :: jFull(l, d, "") == jBare(l, d)
 //@ lemma [C15.roundtrip.bare] forall l Str, d Str :: okLocal(l) && okDomain(d) ==> jValid(jBare(l, d)) && jLocal(jBare(l, d)) == l && jDom(jBare(l, d)) == d && jRes(jBare(l, d)) == ""
 //@ lemma [C15.reject.empty] forall d Str, r Str :: !jValid("") && !jValid("@" + d) && !jValid("/" + r)
 //@ lemma [C15.reject.emptydomain] forall l Str, r Str :: l != "" && !contains(l, "@") ==> !jValid(l + "@") && !jValid(l + "@/" + r)
